@@ -13,11 +13,14 @@
                             while it had unsynced data, or
                         (b) while that removal is unflushed (no sync_dir of the parent - of one of the two
                             parents for a rename) and the file that left has non-empty durable data
-                            (a creation that truncates - open with truncate, fs::write - hides both), or
+                            (a creation that truncates - open with truncate, fs::write - hides both, unless
+                            a torn-write block size is configured), or
                         (c) a data sync (sync_all / sync_data / coin) of a file created at a name whose removal
                             is unflushed, or
                         (d) creation with truncation (open with truncate, fs::write) at the old or new name of
-                            an unflushed clean rename, or a later data operation on a file created there
+                            an unflushed clean rename, or a later data operation on a file created there, or
+                        (e) with a torn-write block size: a non-empty write to a file created at a name whose
+                            removal is unflushed while the name's old entry is durable
                       (any creation at a name a file left since the last crash is FsSafe.KRecreate, which the
                       theorems exclude)
      NKindSwap        an entry of one kind created where an entry of the other kind was removed since the last crash
@@ -34,8 +37,9 @@
                         (g) sync_dir(old parent) before sync_dir(new parent);
                         (h) sync_dir(new parent) first while the old entry is not durable: at once if the
                             inode never reached the disk, else every operation until the next crash;
-                        (i) sync_dir(new parent) first with a durable old entry: any later creation of a
-                            file at the old name (also after crashes);
+                        (i) sync_dir(new parent) first with a durable old entry: at once if a file was
+                            created at the old name meanwhile, else any later creation of a file at the old
+                            name (also after crashes);
                         (j) sync_dir(new parent) first with a durable old entry after the file was unlinked
                             at its new name
    No proofs in this file. *)
@@ -115,6 +119,22 @@ Definition touched (t : sworld) (o : op) : option N :=
   | _ => None
   end.
 
+(* the inode a non-empty write of this step lands on *)
+Definition written_ino (t : sworld) (o : op) : option N :=
+  match o with
+  | WriteAt slot _ data _ | Write slot data _ =>
+      match sget (shs t) slot with
+      | Some h => if sw h && negb (is_nil data) then Some (sino h) else None
+      | None => None
+      end
+  | Spit p data _ =>
+      match nget (names t) p with
+      | Some (EFile i) => if negb (is_nil data) then Some i else None
+      | _ => None
+      end
+  | _ => None
+  end.
+
 (* the inode this step data-syncs *)
 Definition synced_ino (t : sworld) (o : op) : option N :=
   match o with
@@ -149,19 +169,27 @@ Definition kclasses (d : dworld) (gh : ghost) (o : op) : list known :=
          ++ match o with
             | Open _ p r w a tr c n =>
                 let fresh := match nget (names t) p with None => c || n | _ => false end in
-                kwhen (fresh && leaves_bytes d gh p && negb (tr && w && negb n && valid_open r w a tr c n)) NRecreate
+                kwhen (fresh && leaves_bytes d gh p
+                       && negb (tr && w && negb n && valid_open r w a tr c n && (dbs d =? 0)%nat)) NRecreate
                 ++ kwhen (fresh && under_rename gh p && tr && w && valid_open r w a tr c n) NRecreate
                 ++ kwhen (fresh && mem_path p (ggdirs gh)) NKindSwap
                 ++ kwhen (fresh && mem_path p (gstale gh)) NRenameCrossDir
             | Spit p data coin =>
                 let fresh := match nget (names t) p with None => true | _ => false end in
-                kwhen (fresh && under_rename gh p) NRecreate
+                kwhen (fresh && (under_rename gh p || (negb (dbs d =? 0)%nat && leaves_bytes d gh p))) NRecreate
                 ++ kwhen (fresh && in_unfl gh p && negb (is_nil data) && coin) NRecreate
+                ++ kwhen (fresh && in_unfl gh p && negb (is_nil data) && negb (dbs d =? 0)%nat
+                          && match nget (dents d) p with Some _ => true | None => false end) NRecreate
                 ++ kwhen (fresh && mem_path p (ggdirs gh)) NKindSwap
                 ++ kwhen (fresh && mem_path p (gstale gh)) NRenameCrossDir
             | _ => []
             end
          ++ kwhen (match synced_ino t o with Some i => has_ino i (grecr gh) | None => false end) NRecreate
+         ++ kwhen (match written_ino t o with
+                   | Some i => negb (dbs d =? 0)%nat
+                               && existsb (fun e => (snd e =? i) && match nget (dents d) (fst e) with Some _ => true | None => false end)
+                                          (grecr gh)
+                   | None => false end) NRecreate
          ++ kwhen (match touched t o with Some i => has_ino i (grren gh) | None => false end) NRecreate
          ++ kwhen (match touched t o with Some i => in_pren i (gpren gh) | None => false end) NRenameFile
          ++ kwhen (match o with
@@ -191,6 +219,8 @@ Definition kclasses (d : dworld) (gh : ghost) (o : op) : list known :=
                           kwhen (negb srcdur && negb (persisted d i)) NRenameCrossDir
                           ++ kwhen (srcdur && negb (match nget (names t) g with Some (EFile j) => j =? i | _ => false end))
                                    NRenameCrossDir
+                          ++ kwhen (srcdur && (match nget (names t) g with Some (EFile j) => j =? i | _ => false end)
+                                    && is_file t f) NRenameCrossDir
                       else []) (gpren gh)
                 | _ => []
                 end
@@ -280,7 +310,8 @@ Definition recr_after (d d' : dworld) (gh : ghost) (o : op) : list path * list (
     | Some (EFile j) =>
         (gleft gh, gunfl gh,
          (if in_unfl gh p && negb (has_key p (grecr gh)) then (p, j) :: grecr gh else grecr gh),
-         (if under_rename gh p && negb (has_key p (grren gh)) && negb (in_pren j (gpren gh)) then (p, j) :: grren gh else grren gh))
+         (if under_rename gh p && negb (in_pren j (gpren gh))
+          then (p, j) :: filter (fun e => negb (path_eqb (fst e) p)) (grren gh) else grren gh))
     | _ => same
     end in
   match o with
